@@ -358,6 +358,17 @@ where
             None
         };
 
+        // The productions added above (start rule, Eco's implicit rules) have no source text:
+        // give them empty spans and no action so that every `PIdx` can be queried.
+        let mut prod_spans = ast
+            .prods
+            .iter()
+            .map(|prod| prod.prod_span)
+            .collect::<Vec<_>>();
+        prod_spans.resize(prods.len(), Span::new(0, 0));
+        actions.resize(prods.len(), None);
+        action_spans.resize(prods.len(), None);
+
         assert!(!token_names.is_empty());
         assert!(!rule_names.is_empty());
         Ok(YaccGrammar {
@@ -380,7 +391,7 @@ where
                 .map(|x| x.unwrap().into_boxed_slice())
                 .collect(),
             prod_precs: prod_precs.into_iter().map(Option::unwrap).collect(),
-            prod_spans: ast.prods.iter().map(|prod| prod.prod_span).collect(),
+            prod_spans: prod_spans.into_boxed_slice(),
             implicit_rule: implicit_rule.map(|x| rule_map[&x]),
             actions: actions.into_boxed_slice(),
             action_spans: action_spans.into_boxed_slice(),
